@@ -1,5 +1,5 @@
 """property -> rules"""
-from . import rules_dd, rules_bounds, rules_limits, rules_tools, rules_conv, rules_handles
+from . import rules_dd, rules_bounds, rules_limits, rules_tools, rules_conv, rules_handles, rules_access
 
 CLANG = "clang 14 parser, constant evaluator and CFG builder (via tools/h4x.cc)"
 CDB = "compile flags taken from ninja -t compdb of /repo/_build (or a throw-away cmake configure)"
@@ -86,6 +86,16 @@ PROPS["C06"] = {
 
 PROPS["C13"] = {
     "rules": [rules_handles.rule_F6a, rules_handles.rule_F6b, rules_handles.rule_F6c, rules_handles.rule_F6d, rules_handles.rule_sdid_layout],
+    "level": "other",
+    "explanation": "TODO",
+    "rule_text": "TODO",
+    "trusted": [CLANG, CDB],
+    "assumptions": [],
+    "level_text": "TODO", "level_note": "TODO", "technique": "TODO",
+}
+
+PROPS["C14"] = {
+    "rules": [rules_access.rule_F5A, rules_access.rule_F5B],
     "level": "other",
     "explanation": "TODO",
     "rule_text": "TODO",
